@@ -256,6 +256,7 @@ impl<'m> Driver<'m> {
         let mon = self.mon;
         let mut n = 0usize;
         let mut drained = 0usize;
+        let mut opaque_errors = 0usize;
         loop {
             let (op, from_drain) = if n < self.ops.len() {
                 (self.ops[n], false)
@@ -347,6 +348,16 @@ impl<'m> Driver<'m> {
             steps.push(Step { op, res, fired_before, fired_after: fired.len() });
             if abnormal {
                 break;
+            }
+            // Very wide data on the in-memory readers: every error costs a rescan of
+            // the input so far (lexpr computes positions on demand), so a tree in
+            // which every element fails would keep one run busy for minutes. The
+            // width is what this workload is about, not the number of errors.
+            if self.opaque && matches!(steps.last().map(|s| &s.res), Some(Err(_))) {
+                opaque_errors += 1;
+                if opaque_errors > 64 {
+                    break;
+                }
             }
             if from_drain {
                 drained += 1;
@@ -1516,6 +1527,8 @@ pub fn c03_run(seed: u64, i: u64, tier: Tier, mon: &mut Mon, found: &mut Vec<Fou
         let opts_ix = opts::draw_parse(&mut rng);
         let opener = (*rng.pick(&["(", "(", "(", "[", "#(", "(x . (", "'("])).to_string();
         let element = (*rng.pick(&["a ", "a ", "1 ", "\"s\" ", "(b) ", "#t ", "'q ", "#(1) ", "é "])).to_string();
+        // one time in eight the wide thing is a byte vector
+        let (opener, element) = if rng.chance(1, 8) { ((*rng.pick(&["#u8(", "#vu8(", "(#u8("])).to_string(), (*rng.pick(&["1 ", "255 ", "0 "])).to_string()) } else { (opener, element) };
         let count = *rng.pick(&[5_000usize, 20_000, 60_000, 150_000, 400_000]);
         let tail = (*rng.pick(&[")", ")", "", "", " . z)", " . z w)", "]", " #z)", ") a", "\"unterminated"])).to_string();
         let len = opener.len() + element.len() * count + tail.len();
